@@ -48,6 +48,7 @@ A0 == [win |-> FALSE, end |-> 0, len |-> 0, pre |-> {}, unarr |-> 0, unc |-> 0, 
 CResetCfg(i, m, cap) == [bad |-> FALSE, why |-> "", I |-> i, M |-> m, cap |-> cap, now |-> 0, adds |-> 0, sigs |-> 0,
                          canStop |-> FALSE, closeRet |-> FALSE, S |-> {A0}]
 
+Take1(s) == [s EXCEPT !.infl = @ - 1, !.last = IF s.infl = 1 THEN "none" ELSE @]
 Emit(s, tag) == [s EXCEPT !.unc = 0, !.infl = @ + 1, !.last = tag]
 
 (* the silent steps of the machine *)
@@ -77,7 +78,7 @@ Silent(c, s) ==
   (* after cancel / Close the limiter may stop, and signals not yet received may be withdrawn *)
   (IF c.canStop /\ s.on THEN {[s EXCEPT !.on = FALSE]} ELSE {})
   \cup
-  (IF c.canStop /\ s.infl > 0 THEN {[s EXCEPT !.infl = @ - 1]} ELSE {})
+  (IF c.canStop /\ s.infl > 0 THEN {Take1(s)} ELSE {})
 
 RECURSIVE Clo(_, _, _)
 Clo(c, done, front) ==
@@ -95,7 +96,7 @@ CAddRet(c, e) == [c EXCEPT !.S = {s \in c.S : e.n \notin s.pre}]
 CSignal(c, e) ==
   IF c.closeRet THEN Bad("after-close: a signal was delivered after Close returned")
   ELSE IF c.sigs + 1 > c.adds THEN Bad("excess: more signals than Adds")
-  ELSE LET S1 == {[s EXCEPT !.infl = @ - 1] : s \in {t \in c.S : t.infl > 0}}
+  ELSE LET S1 == {Take1(s) : s \in {t \in c.S : t.infl > 0}}
        IN IF S1 = {}
             THEN IF \A s \in c.S : s.unc = 0 /\ s.pre = {}
                    THEN Bad("duplicate: a signal although every Add was already covered by one (a burst inside one window yields a single signal)")
